@@ -104,7 +104,7 @@ def select_optrees(cases, tier, rng):
 
 
 def random_cases(tier, seed):
-    n = 1500 if tier == "quick" else 20000
+    n = 1500 if tier == "quick" else 8000
     out = []
     for k in range(n):
         r = gencases.Rand(seed * 1000003 + k, types=(k % 4 == 0))
@@ -121,11 +121,20 @@ def text_of(t):
     return t["out"]
 
 
+QUICK_LABELS = set(["token"] + ["%s:%d" % (g, n) for g in ("dense", "readable") for n in SPANS_QUICK])
+
+
 def choose_judged(o, tier):
-    """quick tier: TLC lexes every text of the small cases, and four texts (smallest dense span, widest dense, widest
-    readable, token-based) of the large random programs; the harness-side structural check always covers all texts."""
+    """Which texts TLC lexes (the harness-side structural check always covers all texts).
+    quick: every text of the small cases; five texts (smallest and two wider dense spans, widest readable, token-based) of
+    the large random programs.  thorough: every text of the small cases; for random programs and depth-3 operator trees the
+    texts produced at the quick tier's column spans."""
     texts = o["texts"]
-    if tier == "thorough" or o["fam"] != "random":
+    if o["fam"] not in ("random", "d3"):
+        return list(range(len(texts)))
+    if tier == "thorough":
+        return [k for k, t in enumerate(texts) if QUICK_LABELS & set(t["gens"])]
+    if o["fam"] == "d3":
         return list(range(len(texts)))
     keep = set()
     for want in ("dense:0", "dense:120", "readable:120", "token", "dense:13"):
@@ -273,10 +282,18 @@ def run(tier):
         opt, nd3 = select_optrees(mc_cases, tier, rng)
         cat = [{"id": "c%d" % k, "fam": fam, "name": name, "block": blk} for k, (fam, name, blk) in enumerate(gencases.catalogue())]
         rnd = random_cases(tier, vlib.seed())
-        pinned = [dict(r, fam="pinned") for r in vlib.pinned_reproducers(PID)]
-        for label, cs in (("optree", opt), ("catalogue", cat + pinned), ("random", rnd)):
+        pinned = [dict(r, fam="pinned") for r in vlib.pinned_reproducers(PID) if "block" in r or "tree" in r]
+        if tier == "thorough":
+            d3 = [c for c in opt if c["fam"] == "d3"]
+            wide = set(c["id"] for c in vlib.sample(d3, 15000, rng))
+            groups = (("optree", [c for c in opt if c["fam"] != "d3" or c["id"] in wide], spans),
+                      ("optree-d3", [c for c in d3 if c["id"] not in wide], SPANS_QUICK),
+                      ("catalogue", cat + pinned, spans), ("random", rnd, spans))
+        else:
+            groups = (("optree", opt, spans), ("catalogue", cat + pinned, spans), ("random", rnd, spans))
+        for label, cs, sp in groups:
             t0 = __import__("time").time()
-            st, sm = run_cases(rep, cs, tier, label, spans)
+            st, sm = run_cases(rep, cs, tier, label, sp)
             st["wall_s_" + label] = round(__import__("time").time() - t0, 1)
             add_stats(total, st)
             samples += sm
@@ -310,6 +327,7 @@ def run(tier):
         "type syntax: casts to a sample of the type grammar, typed locals/parameters/returns, type declarations; for trees with type syntax the token-stream clause is not evaluated (the flat node table drops types), lexical validity and structure are",
         "a line break after `return`, between operands, etc. does not change meaning in Lua; the only meaning-changing breaks are before a call's `(` and inside short strings / interpolated literals -- both are checked",
         "quick tier: depth-3 operator trees are sampled (3 000 of 226 100) for replay, TLC lexes a subset of the texts of random programs (structural check covers all)",
+        "thorough tier: all depth-3 operator trees are replayed, 15 000 of them at every column span 0..=120 and the rest at the quick tier's spans; for random programs and depth-3 trees TLC lexes the texts of the quick tier's spans, the structural check covers every span",
     ]
     return rep.finish()
 
